@@ -31,7 +31,7 @@ ASSUMPTIONS = [
     "agreement with XML follows by transitivity from C01 + this check (each format is compared with the "
     "saved document); JSON and YAML are additionally compared with each other directly",
 ]
-REQUIRED_MONITORS = ["roundtrip", "layout", "layout-to_dict", "json-vs-yaml", "foreign", "save-pure"]
+REQUIRED_MONITORS = ["instance-reuse", "roundtrip", "layout", "layout-to_dict", "json-vs-yaml", "foreign", "save-pure"]
 
 ENTRIES = ["string", "save-load", "write_file", "dict-strict", "dict-lenient"]
 
@@ -226,6 +226,63 @@ def run_foreign(case, ctx):
                 name, item["path"], item["field"], item["exp"], item["obs"]), dict(case, emitted=enc(d)))
 
 
+
+def edit_doc(doc, rng):
+    """A few public-API edits that change what a second write must contain."""
+    import odml
+    secs = list(doc.itersections())
+    s = rng.choice(secs)
+    odml.Property("reuse_added_%d" % rng.randrange(10 ** 6), values=[rng.randrange(100)], parent=s)
+    if rng.random() < 0.7:
+        s.definition = "edited definition %d" % rng.randrange(10 ** 6)
+    props = [p for x in secs for p in x.properties if p.dtype == "int" and p.values]
+    if props:
+        rng.choice(props).append(rng.randrange(10 ** 6))
+    doc.author = "edited author"
+
+
+def run_reuse(case, ctx, fmts, strip):
+    """One writer (and one reader) instance used twice: the second result must describe the edited document."""
+    import random
+    from odml.tools.odmlparser import ODMLWriter, ODMLReader
+    rec = ctx.rec
+    spec = dec(case["spec"])
+    with warnings.catch_warnings():
+        warnings.simplefilter("ignore")
+        try:
+            doc = gen.build_doc(spec)
+        except Exception:
+            return
+        for fmt in fmts:
+            rec.monitor("instance-reuse")
+            rec.evaluation()
+            rng = random.Random("reuse|%s|%s" % (case.get("i"), fmt))
+            try:
+                w = ODMLWriter(fmt)
+                r = ODMLReader(fmt, show_warnings=False)
+                first = w.to_string(doc)
+                m_first = strip(model.model_of(doc))
+                l1 = r.from_string(first)
+                edit_doc(doc, rng)
+                second = w.to_string(doc)
+                l2 = r.from_string(second)
+            except Exception as exc:
+                rec.count("reuse-skipped", type(exc).__name__)
+                continue
+            exp = strip(model.model_of(doc))
+            if l1 is None or l2 is None:
+                continue
+            first_ok = not model.diff(m_first, strip(model.model_of(l1)))
+            d = model.diff(exp, strip(model.model_of(l2)))
+            if d and first_ok:
+                if not model.diff(m_first, strip(model.model_of(l2))):
+                    rec.violation("%s/instance-reuse/second-write-describes-the-document-before-the-edit" % fmt.lower(),
+                                  "%r" % d[:2], dict(case, reuse=fmt))
+                else:
+                    rec.violation("%s/instance-reuse/second-result-differs:%s" % (fmt.lower(), d[0]["field"]), "%r" % d[:2],
+                                  dict(case, reuse=fmt))
+
+
 def run(ctx):
     from vlib import env
     sdir = env.scratch()
@@ -252,6 +309,8 @@ def run(ctx):
             rec.sample({"nodes": gen.count_nodes(spec), "first_section": enc(no_ids(spec["sections"][0]))
                         if gen.count_nodes(spec["sections"][0]) < 6 else "(large)"})
         run_case(case, ctx, sdir)
+        if i % 3 == 0:
+            run_reuse(case, ctx, ["JSON", "YAML"], (lambda m: m))
         if True:
             # the foreign tool describes the document in its normal form (what the API stores: no
             # sub-second part, naive times), so the model of the built document is emitted
